@@ -8,7 +8,7 @@
 (* EmitInv prints the stack with its commands for replay through the CLI.   *)
 EXTENDS Stack, Json
 
-CONSTANTS Shapes, MaxChange, Bug, Emit
+CONSTANTS Shapes, MaxChange, Bug, Emit, Directed
 
 VARIABLES g, chgs      \* g = [par, tree]; chgs[i] = the paths commit i changed (path -> value)
 
@@ -23,8 +23,32 @@ ShapesAll == {L3, L4, M4}
 ShapesDeep == {L5, M5}
 ShapesGen == {L3, L4, L5, M4, M5}
 
-Init == /\ \E sh \in Shapes : g = [par |-> sh, tree |-> <<>>]
-        /\ chgs = <<>>
+(* directed stacks (absorb / squash whose source is a merge commit, with a descendant and the  *)
+(* working-copy commit above): M6 = diamond 1 <- {2, 3} <- 4 (merge) <- 5 <- 6                 *)
+M6 == <<<<0>>, <<1>>, <<1>>, <<2, 3>>, <<4>>, <<5>>>>
+E == <<>>
+DirectedStacks == {
+  \* the merge deletes what ancestors 1 and 2 introduced; 3 adds something unrelated
+  [par |-> M6, chgs |-> <<[a |-> 2], [b |-> 2], [c |-> 2], [a |-> 1, b |-> 1], [c |-> 3], E>>],
+  \* the merge modifies what 1 (common ancestor) and 2 (one side) introduced
+  [par |-> M6, chgs |-> <<[a |-> 2], [b |-> 2], [c |-> 2], [a |-> 3, b |-> 3], [c |-> 3], E>>],
+  \* the merge modifies what each side introduced / last changed
+  [par |-> M6, chgs |-> <<[a |-> 2], [b |-> 2], [a |-> 3], [a |-> 2, b |-> 3], [c |-> 3], E>>],
+  \* the same with the merge itself on top (working copy = the merge)
+  [par |-> M4, chgs |-> <<[a |-> 2], [b |-> 2], [c |-> 2], [a |-> 1, b |-> 1]>>],
+  [par |-> M5, chgs |-> <<[a |-> 2, b |-> 2], [b |-> 3], [a |-> 3], [a |-> 1, b |-> 1], [c |-> 2]>>] }
+
+RECURSIVE Build(_, _, _)
+Build(par, cs, acc) ==
+  IF Len(acc) = Len(par) THEN acc
+  ELSE LET i == Len(acc) + 1
+           base == ParentTree(par, acc, i)
+       IN Build(par, cs, Append(acc, [q \in Paths |-> IF q \in DOMAIN cs[i] THEN <<cs[i][q]>> ELSE base[q]]))
+
+Init == IF Directed
+        THEN \E s \in DirectedStacks : g = [par |-> s.par, tree |-> Build(s.par, s.chgs, <<>>)] /\ chgs = s.chgs
+        ELSE /\ \E sh \in Shapes : g = [par |-> sh, tree |-> <<>>]
+             /\ chgs = <<>>
 
 Done == Len(g.tree) = Len(g.par)
 
